@@ -2,7 +2,7 @@
 // Needs `WalEntry` (item) and `anyhow::Result` in scope.
 //@assume the files of the data directory are not modified by anyone else while the function under contract runs (segment content `seg_entries(name)` is a function of the file name)
 //@trusted Path::join(name) yields a path whose last component is `name`; Path::exists() == false / remove_file -> NotFound are observations "file missing" (capability seg_missing), exists() == true is the observation seg_present
-//@trusted WalReader::read_all_strict Ok => no corrupted frame and the returned entries are the segment's entries (proved on the real reader by unit wal_reader; here a stub); WalReader::read_all Ok with corrupted_entries() == 0 => likewise
+//@trusted WalReader::read_all_strict Ok => no corrupted frame and the returned entries are the segment's entries; WalReader::read_all Ok with corrupted_entries() == 0 => likewise.  Hand-written stubs, but every clause is IMPLIED (unit implied_storage, //@assumed segment_env.rs WalReader::read_all[_strict]) by the contracts unit wal_reader proves on the real reader, under the interpretation seg_entries(name) = parse(bytes of the file, 4).0, seg_clean = `that parse counts no corrupted frame`, seg_read_strict = strict_clean, for a reader as WalReader::open returns it (attached to the file named seg(), positioned behind the magic, counters 0).  What stays trusted: the stub of WalReader::open (not extracted by any unit)
 //@residue an incomplete frame in a non-final segment is indistinguishable from a torn tail for both readers (known finding F-C13-b): `seg_entries` means "the entries of the complete, CRC-valid frames"
 
 // ghost content of a segment file, keyed by its file name (view of the String in the MANIFEST)
@@ -32,7 +32,8 @@ impl WalReader {
     pub uninterp spec fn corrupted(&self) -> usize;
     #[verifier::external_body] pub fn open(p: &PathBuf) -> (r: Result<WalReader>)
         ensures r.is_ok() ==> r.unwrap().seg() == p.name() { unimplemented!() }
-    // tolerant reader: skips frames with a bad CRC and counts them
+    // tolerant reader: skips frames with a bad CRC and counts them.  (A former clause `final(self).seg() == old(self).seg()` of the two readers was
+    // dropped: no consumer needs it and the real reader has no field it could be a function of -- the ghost label is only read in the pre-state)
     #[verifier::external_body] pub fn read_all(&mut self) -> (r: Result<Vec<WalEntry>>)
         ensures
             r.is_ok() && final(self).corrupted() == 0 ==> r.unwrap()@ == seg_entries(old(self).seg()) && seg_clean(old(self).seg()),
